@@ -3,12 +3,12 @@
  * fcache_put_chunk over a temporary file, with mmap/pread/malloc results
  * chosen by the case.
  *
- * case:  <filesz> <pgszlog> <order> <cap> | <op> <op> ...        (hex numbers)
- *   G:<pos>:<mf>:<rf>              fcache_get, entry kept as the next handle
- *   P:<h>                          fcache_put of handle h
- *   R:<pos>:<len>:<mf>:<rf>        fcache_pread
- *   K:<pos>:<len>:<mf>:<rf>:<al>   fcache_get_chunk, read data, fcache_put_chunk
- *   H:<pos>:<len>:<mf>:<rf>:<al>   fcache_get_chunk, chunk kept as the next chunk handle
+ * case:  <nfiles> <sz0>,<sz1>,.. <pgszlog> <order> <cap> | <op> <op> ...   (hex numbers)
+ *   G:<f>:<pos>:<mf>:<rf>              fcache_get on file f, entry kept as the next handle
+ *   P:<h>                              fcache_put of handle h
+ *   R:<f>:<pos>:<len>:<mf>:<rf>        fcache_pread
+ *   K:<f>:<pos>:<len>:<mf>:<rf>:<al>   fcache_get_chunk, read data, fcache_put_chunk
+ *   H:<f>:<pos>:<len>:<mf>:<rf>:<al>   fcache_get_chunk, chunk kept as the next chunk handle
  *   Q:<h>                          fcache_put_chunk of chunk handle h
  *   M:<p>                          fc->mmap_policy = p
  *  <mf>/<rf>/<al>: strings of 0/1 ("-" = none): the i-th mmap / pread / malloc
@@ -16,6 +16,8 @@
  * output: G<st>:<len>:<fnv64(data[0..len))>   R<st>:<fnv64>   K<st>:<nent>:<copied>:<fnv64>
  *         (error: just the status)  P  Q  M, then
  *         "= <refsum cache> <refsum fbcache> <live mallocs> <policy>".
+ * The byte at offset o of file f is (o*31 + o/4096*7 + 5 + 101*f) & 0xff: the files of
+ * a set differ at every offset.
  * The system page size is what sysconf() says; <pgszlog> must agree with it. */
 #include "common.h"
 #include <unistd.h>
@@ -83,6 +85,7 @@ static void fail_plan(const char *mf, const char *rf, const char *al)
 }
 
 #define MAXH 256
+#define MAXF 8
 
 int main(int argc, char **argv)
 {
@@ -98,12 +101,15 @@ int main(int argc, char **argv)
 		static char fce_live[MAXH], chunk_live[MAXH];
 		unsigned nfce = 0, nchunk = 0, i;
 		char *save = NULL, *tok, path[4096];
-		unsigned long long filesz, pgszlog, order, cap, o;
+		unsigned long long filesz[MAXF], nfiles, pgszlog, order, cap, o;
 		struct fcache *fc;
 		unsigned char *content;
-		int fd, first = 1;
+		int fds[MAXF], first = 1;
+		unsigned fi;
+		char *szs, *s3 = NULL, *q;
 
-		tok = strtok_r(line, " ", &save); filesz = hx(tok);
+		tok = strtok_r(line, " ", &save); nfiles = hx(tok);
+		szs = strtok_r(NULL, " ", &save);
 		tok = strtok_r(NULL, " ", &save); pgszlog = hx(tok);
 		tok = strtok_r(NULL, " ", &save); order = hx(tok);
 		tok = strtok_r(NULL, " ", &save); cap = hx(tok);
@@ -112,19 +118,30 @@ int main(int argc, char **argv)
 			printf("PGSZ-MISMATCH\n");
 			continue;
 		}
-		snprintf(path, sizeof path, "%s/fcache-drv-XXXXXX", tmpdir);
-		fd = mkstemp(path);
-		if (fd < 0) { perror(path); return 2; }
-		unlink(path);
-		content = malloc(filesz ? filesz : 1);
-		for (o = 0; o < filesz; ++o)
-			content[o] = (unsigned char)((o * 31 + o / 4096 * 7 + 5) & 0xff);
-		if (filesz && write(fd, content, filesz) != (ssize_t)filesz) { perror("write"); return 2; }
-		free(content);
+		if (nfiles < 1 || nfiles > MAXF) { printf("BAD-NFILES\n"); continue; }
+		for (fi = 0, q = strtok_r(szs, ",", &s3); fi < nfiles; ++fi, q = strtok_r(NULL, ",", &s3))
+			filesz[fi] = q ? hx(q) : 0;
+		for (fi = 0; fi < nfiles; ++fi) {
+			snprintf(path, sizeof path, "%s/fcache-drv-XXXXXX", tmpdir);
+			fds[fi] = mkstemp(path);
+			if (fds[fi] < 0) { perror(path); return 2; }
+			unlink(path);
+			content = malloc(filesz[fi] ? filesz[fi] : 1);
+			for (o = 0; o < filesz[fi]; ++o)
+				content[o] = (unsigned char)((o * 31 + o / 4096 * 7 + 5 + 101 * fi) & 0xff);
+			if (filesz[fi] && write(fds[fi], content, filesz[fi]) != (ssize_t)filesz[fi]) {
+				perror("write"); return 2;
+			}
+			free(content);
+		}
 
 		fail_plan(NULL, NULL, NULL);
-		fc = fcache_new(1, &fd, cap, order);
-		if (!fc) { printf("NEWFAIL\n"); close(fd); continue; }
+		fc = fcache_new(nfiles, fds, cap, order);
+		if (!fc) {
+			printf("NEWFAIL\n");
+			for (fi = 0; fi < nfiles; ++fi) close(fds[fi]);
+			continue;
+		}
 		live = 0;
 		memset(fce_live, 0, sizeof fce_live);
 		memset(chunk_live, 0, sizeof chunk_live);
@@ -139,8 +156,8 @@ int main(int argc, char **argv)
 			case 'G': {
 				struct fcache_entry fce;
 				kdump_status st;
-				fail_plan(fld[2], fld[3], NULL);
-				st = fcache_get(fc, &fce, 0, (off_t)hx(fld[1]));
+				fail_plan(fld[3], fld[4], NULL);
+				st = fcache_get(fc, &fce, (unsigned)hx(fld[1]), (off_t)hx(fld[2]));
 				fail_plan(NULL, NULL, NULL);
 				if (st == KDUMP_OK) {
 					printf("G0:%zx:%" PRIx64, fce.len, fnv64(fce.data, fce.len));
@@ -157,11 +174,11 @@ int main(int argc, char **argv)
 				break;
 			}
 			case 'R': {
-				size_t len = hx(fld[2]);
+				size_t len = hx(fld[3]);
 				unsigned char *buf = malloc(len ? len : 1);
 				kdump_status st;
-				fail_plan(fld[3], fld[4], NULL);
-				st = fcache_pread(fc, buf, len, 0, (off_t)hx(fld[1]));
+				fail_plan(fld[4], fld[5], NULL);
+				st = fcache_pread(fc, buf, len, (unsigned)hx(fld[1]), (off_t)hx(fld[2]));
 				fail_plan(NULL, NULL, NULL);
 				if (st == KDUMP_OK)
 					printf("R0:%" PRIx64, fnv64(buf, len));
@@ -171,12 +188,12 @@ int main(int argc, char **argv)
 				break;
 			}
 			case 'K': case 'H': {
-				size_t len = hx(fld[2]);
+				size_t len = hx(fld[3]);
 				struct fcache_chunk fch;
 				kdump_status st;
 				memset(&fch, 0xa5, sizeof fch);
-				fail_plan(fld[3], fld[4], fld[5]);
-				st = fcache_get_chunk(fc, &fch, len, 0, (off_t)hx(fld[1]));
+				fail_plan(fld[4], fld[5], fld[6]);
+				st = fcache_get_chunk(fc, &fch, len, (unsigned)hx(fld[1]), (off_t)hx(fld[2]));
 				fail_plan(NULL, NULL, NULL);
 				if (st == KDUMP_OK) {
 					printf("%c0:%zx:%d:%" PRIx64, fld[0][0], fch.nent,
@@ -212,7 +229,7 @@ int main(int argc, char **argv)
 		for (i = 0; i < nfce; ++i)
 			if (fce_live[i]) fcache_put(&fces[i]);
 		fcache_free(fc);
-		close(fd);
+		for (fi = 0; fi < nfiles; ++fi) close(fds[fi]);
 	}
 	fclose(f);
 	return 0;
